@@ -262,18 +262,27 @@ fn check_word(
             _ => None,
         };
         let t_prev = prev_glyph.map(|c| (ctx.has_rule)(Some(c), Some(w.letters[0]))).unwrap_or(false);
-        // TeX quirk: an implicit kern separates the word from a preceding same-font character that
-        // has a rule with the first letter (e.g. `.b -> .^c_` then `.c -> .[7]c`: `. kern lig(c<-b)`).
-        // TeX's `ha` is then the kern, no left context is used (§903 "no punctuation found") and TeX
-        // itself re-translates the word on its own.
-        let t_context_behind_kern = {
+        // TeX quirk: implicit kerns and/or character-less ligatures separate the word from a
+        // preceding same-font character that has a rule with the first letter (e.g. `.b -> .^c_`
+        // then `.c -> .[7]c`: `. kern lig(c<-b)`; or `0d -> 0^._` then `0. -> 0y^.`:
+        // `0 lig(y<-) lig(.<-d)`). TeX's `ha` is then the kern (no left context, §903 "no
+        // punctuation found") or the character-less ligature (hu[0] = its glyph): the character
+        // that shaped the word's first node is invisible and TeX itself re-translates the word on
+        // its own.
+        let t_context_out_of_sight = {
             let mut i = rs;
-            let mut kerns = 0;
-            while i > 0 && matches!(before[i - 1], N::Kern { normal: true, .. }) {
+            let mut skipped = 0;
+            while i > 0
+                && match &before[i - 1] {
+                    N::Kern { normal: true, .. } => true,
+                    N::Lig { orig, left: false, font, .. } => orig.is_empty() && *font == hf,
+                    _ => false,
+                }
+            {
                 i -= 1;
-                kerns += 1;
+                skipped += 1;
             }
-            kerns > 0
+            skipped > 0
                 && match i.checked_sub(1).map(|j| &before[j]) {
                     Some(N::Char { c, font }) | Some(N::Lig { c, font, .. }) if *font == hf => {
                         (ctx.has_rule)(Some(*c), Some(w.letters[0]))
@@ -325,16 +334,25 @@ fn check_word(
                     "note": "word nodes = the word translated on its own; TeX translates it with the preceding character as left context (hu[0])"})),
             ));
             rep.count("known:preceding_character_context_ignored");
-        } else if t_context_behind_kern && (is_on || is_off) {
-            rep.count("excluded_from_(1):TeX_ignores_the_context_before_an_implicit_kern");
+        } else if t_context_out_of_sight && (is_on || is_off) {
+            rep.count("excluded_from_(1):TeX_cannot_see_the_context_behind_a_kern_or_empty_ligature");
         } else if t_follower && (is_on || is_off || is_tex_restart) {
             // TeX itself reconstitutes the word with the following character as right boundary
             // (hyf_bchar, §897/§903) and keeps that character's own node: pinned by the unit tests
             // right_boundary_char_override_3..6. Not demanded, counted.
             rep.count("excluded_from_(1):TeX_reconstitutes_with_following_char_ligature");
         } else {
+            let prev_kind = match rs.checked_sub(1).map(|i| &before[i]) {
+                Some(N::Char { font, .. }) if *font == hf => "after-char",
+                Some(N::Lig { font, orig, .. }) if *font == hf && orig.is_empty() => "after-empty-ligature",
+                Some(N::Lig { font, .. }) if *font == hf => "after-ligature",
+                Some(N::Kern { normal: true, .. }) => "after-implicit-kern",
+                Some(N::Glue) => "after-glue",
+                _ => "after-other",
+            };
+            let shape = if is_on || is_off { "retranslated-alone" } else if is_tex_restart { "retranslated-from-boundary" } else { "other" };
             rep.violation(
-                "(1)-word-nodes-differ",
+                format!("(1)-word-nodes-differ/{prev_kind}/{shape}"),
                 detail(json!({"trigger_left_boundary": t_left, "trigger_preceding_character": t_prev,
                     "trigger_follower_ligature": t_follower, "restarts_at_boundary": restarts_at_boundary,
                     "translated_with_left_boundary": show_list(&regen_on),
